@@ -24,11 +24,13 @@ type opJ struct {
 }
 
 type senderCase struct {
-	BS     int   `json:"bs"` // as passed to OpenIQ (0: default)
-	Acked  bool  `json:"acked"`
-	Seq0   int   `json:"seq0"`
-	Ops    []opJ `json:"ops"`
-	Remote bool  `json:"remote_close"` // the peer closes instead of the application
+	BS           int   `json:"bs"` // as passed to OpenIQ (0: default)
+	Acked        bool  `json:"acked"`
+	Seq0         int   `json:"seq0"`
+	Ops          []opJ `json:"ops"`
+	Remote       bool  `json:"remote_close"`             // the peer closes instead of the application
+	Incoming     bool  `json:"incoming,omitempty"`       // the stream was opened by the peer and accepted
+	NoStanzaAttr bool  `json:"no_stanza_attr,omitempty"` // incoming: the open request has no stanza attribute (means iq)
 }
 
 type wpkt struct {
@@ -98,7 +100,32 @@ func (x *runner) runSender(c senderCase, origin string) bool {
 	classes := []string{"sender/" + carrier, "sender/origin/" + origin}
 	r.peer.setAuto(ackAll)
 	start := r.peer.logLen()
-	conn, err := openLocal(r, sid, c.BS, c.Acked)
+	var conn *ibb.Conn
+	var err error
+	if c.Incoming {
+		id := r.id("op")
+		st := ` stanza="` + carrier + `"`
+		if c.NoStanzaAttr && c.Acked {
+			st = ""
+		}
+		r.peer.send(`<iq type="set" id="` + id + `" from="` + remoteAddr + `" to="` + r.s.LocalAddr().String() + `"><open xmlns="` + ibb.NS + `" block-size="` + strconv.Itoa(c.BS) + `" sid="` + sid + `"` + st + `/></iq>`)
+		w, ok := r.peer.replyTo(id, start, watchdog)
+		if !ok || w.Type != "result" {
+			x.res.Fail("C15/open/listener-refused", "an open request addressed to a listener is not accepted", k)
+			x.dropRig()
+			return false
+		}
+		select {
+		case conn = <-r.accepted:
+		case <-timeAfter(watchdog):
+			x.res.Fail("C15/open/accept-missing", "an accepted open request never reaches Accept", k)
+			x.dropRig()
+			return false
+		}
+		classes = append(classes, "sender/incoming")
+	} else {
+		conn, err = openLocal(r, sid, c.BS, c.Acked)
+	}
 	if err != nil || conn == nil {
 		x.res.Fail("C15/open/accepted-but-failed", fmt.Sprintf("OpenIQ fails although the peer accepted: %v", err), k)
 		x.dropRig()
@@ -220,7 +247,7 @@ func (x *runner) runSender(c senderCase, origin string) bool {
 		classes = append(classes, "sender/wraps-65536")
 	}
 	classes = append(classes, fmt.Sprintf("sender/packets/%s", bucket(len(pk))), fmt.Sprintf("sender/bytes/%s", bucket(len(total))))
-	x.res.Count(fmt.Sprintf("s|%d|%v|%d|%v|%v", c.BS, c.Acked, c.Seq0, c.Remote, c.Ops), nontrivial, classes...)
+	x.res.Count(fmt.Sprintf("s|%d|%v|%d|%v|%v|%v", c.BS, c.Acked, c.Seq0, c.Remote, c.Incoming, c.Ops), nontrivial, classes...)
 	x.res.Sample(k)
 
 	// ---- correspondence case ----
@@ -371,7 +398,7 @@ func genOps(r *hx.Rand, bs int, budget int) []opJ {
 
 func genSender(r *hx.Rand, budget int) senderCase {
 	bs := genBS(r)
-	c := senderCase{BS: bs, Acked: r.Chance(3, 5), Remote: r.Chance(1, 4)}
+	c := senderCase{BS: bs, Acked: r.Chance(3, 5), Remote: r.Chance(1, 4), Incoming: r.Chance(1, 4), NoStanzaAttr: r.Chance(1, 3)}
 	if r.Chance(1, 3) {
 		c.Seq0 = 65536 - 1 - r.Intn(6)
 	} else if r.Chance(1, 8) {
